@@ -18,7 +18,7 @@ PROP = "C17"
 LEVEL = "proof"
 META = {
     "category": "proof",
-    "technique": "Coq refinement proof (conditional-stack machine = tree semantics, any depth) + extracted-model differential run against preprocessor.cpp",
+    "technique": "Coq refinement proof (conditional-stack machine = tree semantics, any depth; output = ordered subsequence of the source lines for every line sequence, by induction over the line loop) + extracted-model differential run against preprocessor.cpp",
     "text": "Machine-checked theorems about a function-by-function Gallina model of preprocessor.cpp: the ConditionalState stack machine "
             "refines the tree semantics of nested #ifdef/#ifndef/#elif/#else for every depth, table and line list; skipped regions are inert; "
             "stray/unclosed/unknown directives always raise an error; -D equals a leading #define; every replacement the expander makes is a "
